@@ -654,23 +654,51 @@ def _variant_of(f, op):
     return None
 
 
+def chunk_roots(fx, f, op):
+    """descriptors of the chunk a value is taken from: fields named `chunk` (with their ADT) and chunk-typed parameters among the ancestors"""
+    out = set()
+    if op is None or op[0] not in ("c", "m"):
+        return out
+    for l in ancestors(f, op[1][0]):
+        if 1 <= l <= f.argc and "Chunk" in fx.tys(f.locals[l]) and "Vm" not in fx.tys(f.locals[l]) and "VM" not in fx.tys(f.locals[l]):
+            out.add(("param", l))
+        for bi, si, rv in f.defs().get(l, []):
+            if si == "T":
+                continue
+            for pl in F.rvalue_places(rv):
+                for a, v, n in F.place_fields(pl):
+                    if n == "chunk":
+                        out.add(("field", a.split("::")[-1]))
+    for e in op[1][1]:
+        if isinstance(e, list) and e[0] == "f" and e[2] == "chunk":
+            out.add(("field", (e[3] or "").split("::")[-1]))
+    return out
+
+
 def trace(fx, ck, pre, control):
-    ck.rule("T1.trace", "the trace builder lists the current frame first, then the trampoline stack from its top; both frame kinds locate ip - 1 in their own chunk",
-            floor=3)
+    ck.rule("T1.trace", "the trace builder lists the current frame first, then the trampoline stack from its top; every frame is located at ip - 1 of its "
+                        "own chunk and takes file, line and column from that chunk / span", floor=3)
     builders = []
     for p, f in sorted(fx.fns.items()):
         if f.closure or (control and not p.startswith("c20::")):
             continue
         if "Vec<" in fx.tys(f.locals[0]) and "StackFrame>" in fx.tys(f.locals[0]):
-            if any(s[0] == "a" and s[2][0] == "agg" and s[2][1].get("p", "").endswith("StackFrame") for bl in f.blocks for s in bl["s"]):
-                builders.append(f)
+            builders.append(f)
     if not ck.anchor(bool(builders), pre + "stack-trace builder (returns Vec<StackFrame>)"):
         return
+    # frame constructors: the builder itself or helpers it calls (a frame may be built by `stack_frame_at(chunk, ip)`)
+    ctors = []
+    for bf in builders:
+        cand = [bf] + [fx.fns[t[1]["d"]] for bi, t in bf.calls() if t[1].get("local") and t[1].get("d") in fx.fns]
+        for g in cand:
+            if any(s[0] == "a" and s[2][0] == "agg" and s[2][1].get("p", "").endswith("StackFrame") for bl in g.blocks for s in bl["s"]) and g not in ctors:
+                ctors.append(g)
+    ck.anchor(bool(ctors), pre + "construction of StackFrame reachable from the trace builder")
     for f in builders:
         p = f.path
-        frames = [(bi, s) for bi, bl in enumerate(f.blocks) for s in bl["s"]
-                  if s[0] == "a" and s[2][0] == "agg" and s[2][1].get("p", "").endswith("StackFrame")]
-        # order: iteration over the frame stack is reversed
+        helper_calls = [bi for bi, t in f.calls() if t[1].get("d") in {g.path for g in ctors if g is not f}]
+        frames_here = [bi for bi, bl in enumerate(f.blocks) for s in bl["s"]
+                       if s[0] == "a" and s[2][0] == "agg" and s[2][1].get("p", "").endswith("StackFrame")] + helper_calls
         its = []
         for bi, t in f.calls():
             d = t[1].get("d") or ""
@@ -681,9 +709,9 @@ def trace(fx, ck, pre, control):
                 if on_stack:
                     its.append((bi, t))
         for bi, t in its:
-            res = t[3][0]
             if "Rev<" in fx.tys(f.locals[t[2][0][1][0]]):
                 continue   # the into_iter of an already reversed iterator
+            res = t[3][0]
             rev = any((t2[1].get("u") or "").endswith("Iterator::rev") and t2[2] and t2[2][0][0] in ("c", "m") and res in ancestors(f, t2[2][0][1][0])
                       for b2, t2 in f.calls())
             ck.instance("T1.trace", "%s walks the frame stack from its top" % p, F.short_span(t[6]), ok=rev)
@@ -691,47 +719,60 @@ def trace(fx, ck, pre, control):
                 ck.finding("T1.trace", "T1.trace/%s/order" % p, F.short_span(t[6]),
                            "`%s` walks the trampoline stack from the bottom: callers are listed outermost first" % p)
         ck.anchor(bool(its), pre + "iteration over the trampoline stack in " + p)
-        # current frame first: the StackFrame not inside the loop dominates the loop head
-        if its and frames:
+        if its and frames_here:
             loop_b = its[0][0]
-            first = [bi for bi, s in frames if not f.dominates(loop_b, bi)]
+            first = [bi for bi in frames_here if not f.dominates(loop_b, bi)]
             ok = bool(first)
             ck.instance("T1.trace", "%s pushes the current frame before the outer frames" % p, F.short_span(f.span), ok=ok)
             if not ok:
                 ck.finding("T1.trace", "T1.trace/%s/current-first" % p, F.short_span(f.span), "`%s` does not list the current frame before the callers" % p)
-        # siblings: per frame, the location lookup uses (ip - 1) and line/column of that lookup's span
-        sigs = []
+    for f in ctors:
+        p = f.path
+        frames = [(bi, s) for bi, bl in enumerate(f.blocks) for s in bl["s"]
+                  if s[0] == "a" and s[2][0] == "agg" and s[2][1].get("p", "").endswith("StackFrame")]
         for bi, s in frames:
             fields = s[2][1].get("fields") or []
             sig = {}
             for role in ("line", "column"):
                 if role in fields:
                     sig[role] = ",".join(sorted(field_names(leaves(f, s[2][2][fields.index(role)])))) or "?"
-            # the lookup call that dominates this frame
             look = [(b2, t2) for b2, t2 in f.calls() if (t2[1].get("d") or "").endswith("get_source_location") and f.dominates(b2, bi)]
-            look.sort(key=lambda x: -x[0])
             near = None
             for b2, t2 in look:
                 if near is None or f.dominates(near[0], b2):
                     near = (b2, t2)
+            lookup_roots = set()
             if near is not None and len(near[1][2]) > 1:
                 lv = leaves(f, near[1][2][1])
                 forms = set()
                 for x in lv:
                     if x[0] == "bin" and x[1] == "Sub" and set(x[3]) == {("const", 1)}:
                         forms.add("ip-1")
+                    elif x[0] == "call" and x[1].endswith(("saturating_sub", "checked_sub", "wrapping_sub")):
+                        a = f.blocks[x[2]]["t"][2]
+                        forms.add("ip-1" if len(a) > 1 and M.const_int(a[1]) == 1 else "ip-?")
                     elif x[0] == "const":
                         forms.add("const:%s" % x[1])
                     elif x[0] == "field":
                         forms.add("raw:%s" % x[2])
+                    elif x[0] == "param":
+                        forms.add("raw:param")
                     else:
                         forms.add(x[0])
                 sig["ip"] = "|".join(sorted(forms))
-            sigs.append((bi, s, sig))
-        for bi, s, sig in sigs:
-            ok = sig.get("line") == "line" and sig.get("column") == "column" and "ip-1" in sig.get("ip", "") and "raw:ip" not in sig.get("ip", "")
+                lookup_roots = chunk_roots(fx, f, near[1][2][0])
+            ok = sig.get("line") == "line" and sig.get("column") == "column" and "ip-1" in sig.get("ip", "") and "raw:" not in sig.get("ip", "")
+            why = "the saved `ip` points past the instruction that was executing, so the location must be looked up at `ip - 1`, and line/column must come from that span"
+            # file / function name from the chunk that was looked up
+            for role in ("file", "function_name"):
+                if role in fields and lookup_roots:
+                    rr = chunk_roots(fx, f, s[2][2][fields.index(role)])
+                    sig[role] = "same chunk" if (rr & lookup_roots) else ("other chunk %s" % sorted(rr) if rr else "?")
+                    if rr and not (rr & lookup_roots):
+                        ok = False
+                        why = "`%s` is taken from %s while the location was looked up in %s: across modules the frame names a file the position does not belong to" % (
+                            role, sorted(rr), sorted(lookup_roots))
             ck.instance("T1.trace", "%s frame: %s" % (p, sorted(sig.items())), F.short_span(s[3]), ok=ok)
             if not ok:
                 ck.finding("T1.trace", "T1.trace/%s/frame/%s" % (p, "+".join("%s=%s" % kv for kv in sorted(sig.items()))), F.short_span(s[3]),
-                           "`%s` builds a frame with %s: the saved `ip` points past the instruction that was executing, so the location must be "
-                           "looked up at `ip - 1`, and line/column must come from that span" % (p, sorted(sig.items())))
+                           "`%s` builds a frame with %s: %s" % (p, sorted(sig.items()), why))
